@@ -691,7 +691,24 @@ fn run_target(t: &Target, bad_attr: Option<usize>) -> Result<Result<(), String>,
 	let r = no_panic(|| -> Result<(), String> {
 		match t {
 			Target::Cert(c) => {
-				let _ = build_cert(c);
+				// the trait impls on the parameter types are API too: render what a caller would print
+				if let Ok(p) = mk::cert_params(&c.spec) {
+					let _ = format!("{p:?}");
+					if let Some(s) = &p.serial_number {
+						let _ = format!("{s} {s:?} {} {:?}", s.len(), s.to_bytes());
+					}
+					for (t, v) in p.distinguished_name.iter() {
+						let _ = format!("{t:?}={v:?}");
+					}
+					for x in &p.custom_extensions {
+						let _ = format!("{:?} {} {:?}", x.oid_components().collect::<Vec<_>>(), x.criticality(), x.content().len());
+					}
+					let _ = p.clone() == p;
+				}
+				if let Ok(b) = build_cert(c) {
+					let _ = format!("{:?} {:?}", b.cert, b.cert.key_identifier());
+					let _ = b.cert.pem();
+				}
 			},
 			Target::Csr(c) => {
 				let params = match mk::cert_params(&c.spec) {
@@ -706,7 +723,16 @@ fn run_target(t: &Target, bad_attr: Option<usize>) -> Result<Result<(), String>,
 				let _ = params.serialize_request_with_attributes(&key, attrs);
 			},
 			Target::Crl(c) => {
-				let _ = build_crl(c);
+				if let Ok(p) = mk::crl_params(&c.crl) {
+					let _ = format!("{p:?} {} {}", p.crl_number, p.crl_number.len());
+					for r in &p.revoked_certs {
+						let _ = format!("{} {:?}", r.serial_number, r.serial_number.to_bytes());
+					}
+				}
+				if let Ok(Ok(b)) = build_crl(c) {
+					let _ = format!("{:?}", b.crl);
+					let _ = b.crl.pem();
+				}
 			},
 		}
 		Ok(())
